@@ -74,18 +74,24 @@ pub fn check_history(depth: u8, full: bool, cap: usize, pushes: &[u64], part: &m
 /// single extra cells: executed on the real builder, compared with the range model WITHOUT
 /// materialising the pushes in the replay file.
 pub fn check_runs(depth: u8, full: bool, cap: usize, runs: &[(u64, u64)], part: &mut Part) -> Option<Viol> {
+  let r3: Vec<(u64, u64, u64)> = runs.iter().map(|&(s, l)| (s, l, 1)).collect();
+  check_strided_runs(depth, full, cap, &r3, part)
+}
+
+/// Runs (start, count, stride): `count` cells start, start + stride, ... pushed in order.
+pub fn check_strided_runs(depth: u8, full: bool, cap: usize, runs: &[(u64, u64, u64)], part: &mut Part) -> Option<Viol> {
   let api = "BMOCBuilderFixedDepth";
   let rv = runs.to_vec();
   let r = guarded(move || {
     let mut b = BMOCBuilderFixedDepth::with_capacity(depth, full, cap);
-    for &(s, l) in &rv {
-      for h in s..s + l {
-        b.push(h);
+    for &(s, l, st) in &rv {
+      for k in 0..l {
+        b.push(s + k * st);
       }
     }
     b.to_bmoc()
   });
-  let case = json!({"kind": "runs", "depth": depth, "is_full": full, "capacity": cap, "runs": runs.iter().map(|r| json!([r.0.to_string(), r.1.to_string()])).collect::<Vec<_>>()});
+  let case = json!({"kind": "runs", "depth": depth, "is_full": full, "capacity": cap, "runs": runs.iter().map(|r| json!([r.0.to_string(), r.1.to_string(), r.2.to_string()])).collect::<Vec<_>>()});
   let mk = |kind: &str, expected: String, actual: String| Some(Viol { api: api.into(), kind: kind.into(), case: case.clone(), expected, actual });
   let res = match r {
     Ok(Some(r)) => r,
@@ -94,7 +100,14 @@ pub fn check_runs(depth: u8, full: bool, cap: usize, runs: &[(u64, u64)], part: 
   };
   part.validated += 1;
   let st = if full { FULL } else { PARTIAL };
-  let mut rs: Vec<(u64, u64)> = runs.iter().map(|&(s, l)| (s, s + l)).collect();
+  let mut rs: Vec<(u64, u64)> = vec![];
+  for &(s, l, stride) in runs {
+    if stride == 1 {
+      rs.push((s, s + l));
+    } else {
+      rs.extend((0..l).map(|k| (s + k * stride, s + k * stride + 1)));
+    }
+  }
   rs.sort();
   let mut ranges: Vec<(u64, u64, u8)> = vec![];
   for (s, e) in rs {
@@ -227,6 +240,7 @@ pub fn run(ctx: &Ctx) -> i32 {
     Sweep(u64, u64),
     Stairs(usize, usize),
     Pow4(u32),
+    LongScatter(u32),
     SameNumber,
   }
   let mut jobs: Vec<Job> = (0..njobs_hist).map(Job::Hist).collect();
@@ -292,6 +306,12 @@ pub fn run(ctx: &Ctx) -> i32 {
   // the packing arithmetic of the builder (log4 of the run length) changes there
   for k in 1..=(if quick { 11u32 } else { 12 }) {
     jobs.push(Job::Pow4(k));
+  }
+  // long histories of cells that do not merge: 2^k - 1, 2^k, 2^k + 1 scattered cells (stride 3),
+  // several buffer capacities (a builder switching strategy for "large" inputs does it at a power
+  // of two), then a packed tile pushed again over the beginning of the scattered cells
+  for k in 10..=(if quick { 16u32 } else { 20 }) {
+    jobs.push(Job::LongScatter(k));
   }
   jobs.push(Job::SameNumber);
   let chunk = 256;
@@ -544,6 +564,25 @@ pub fn run(ctx: &Ctx) -> i32 {
           }
         }
       }
+      Job::LongScatter(k) => {
+        let d = 14u8; // 3 * (2^20 + 1) cells fit in the depth-2 cell 121 (4^12 cells)
+        let t0 = 121u64 << 24;
+        for n in [(1u64 << *k) - 1, 1u64 << *k, (1u64 << *k) + 1] {
+          for cap in [n as usize, (n / 2 + 1) as usize, 1000, (n + 7) as usize] {
+            for full in [true, false] {
+              part.stratum("long-scattered-histories", 1, 1);
+              if let Some(v) = check_strided_runs(d, full, cap, &[(t0 + 1, n, 3), (t0 - 9, 1, 1)], &mut part) {
+                part.viol(v);
+              }
+            }
+          }
+          // scattered cells, then the aligned tile of 4^5 cells that contains the first 342 of them
+          part.stratum("long-scattered-histories", 1, 1);
+          if let Some(v) = check_strided_runs(d, true, (n / 3 + 5) as usize, &[(t0 + 1, n, 3), (t0, 1024, 1), (t0 + 3 * n + 7, 1, 1)], &mut part) {
+            part.viol(v);
+          }
+        }
+      }
       Job::Pow4(k) => {
         let d = ((*k + 1) as u8).max(3).min(29);
         let len0 = 1u64 << (2 * *k);
@@ -607,6 +646,7 @@ pub fn run(ctx: &Ctx) -> i32 {
       "bulk": "per depth (6, 9 quick; + 12, 18, 29 thorough) a deterministic multiset of ~9000 pushes (60 clusters, a whole aligned coarse cell of 4096 cells, an unaligned run of 1500, 400 repeats) in 3 orders x 5 capacities x 2 flags",
       "repush_size_sweep": format!("a whole tile then n of its cells again + 2 cells after it, every n in 1..={}, capacity = tile size (drain = or of the packed tile with n covered entries), both flags and the reverse arrival order", sweep_max),
       "merge_cascades": format!("{} staircase sequences: every cascade length 1..=29 (3k+1 entries), 4 child paths, all full / one partial stair / partial last cell; pack and lower depths 0..3", stairs.len()),
+      "long_scattered_histories": "2^k - 1, 2^k, 2^k + 1 cells of stride 3 at depth 14 (k = 10..=16 quick / 20 thorough), 4 buffer capacities, both flags; then an aligned tile pushed over their beginning",
       "power_of_four_runs": "runs of 4^k - 3 .. 4^k + 1 consecutive cells (k = 1..=11 quick / 12 thorough) from an aligned and an unaligned start, followed by a cell after a hole, both flags, one buffer",
       "small": "all subsets of the depth-0 cells, of the depth-1... (12 cells) and of 11 cells of depth 29, both orders; all rotations of the 48 depth-1 cells",
       "sequences": format!("{} valid entry sequences (universe depth 2 chain-first with partial flags and unpacked shapes{}) x pack and every lower depth", all_seq.len(), if quick { "" } else { ", depth 3 chain-last" })}),
@@ -619,8 +659,8 @@ pub fn run(ctx: &Ctx) -> i32 {
 pub fn replay(case: &Value) -> Option<Viol> {
   let mut part = Part::new();
   if case["kind"] == "runs" {
-    let runs: Vec<(u64, u64)> = case["runs"].as_array().unwrap().iter().map(|r| (u64_from_json(&r[0]), u64_from_json(&r[1]))).collect();
-    return check_runs(case["depth"].as_u64().unwrap() as u8, case["is_full"].as_bool().unwrap(), case["capacity"].as_u64().unwrap() as usize, &runs, &mut part);
+    let runs: Vec<(u64, u64, u64)> = case["runs"].as_array().unwrap().iter().map(|r| (u64_from_json(&r[0]), u64_from_json(&r[1]), r.get(2).map(u64_from_json).unwrap_or(1))).collect();
+    return check_strided_runs(case["depth"].as_u64().unwrap() as u8, case["is_full"].as_bool().unwrap(), case["capacity"].as_u64().unwrap() as usize, &runs, &mut part);
   }
   if case["kind"] == "history" {
     let pushes: Vec<u64> = case["pushes"].as_array().unwrap().iter().map(u64_from_json).collect();
